@@ -757,10 +757,15 @@ def cache_invariant(run, twin=None):
         def __init__(self, name, ch):
             self.name, self._ch = name, ch
             self.fresh = False
+            self.consulted = []
 
         @property
         def changed(self):
-            return core.CUR.branch(self._ch)
+            # contract of SourceModule.changed (ground obligations below): the module's own file changed, or one of the modules whose
+            # names its analysis copied (star imports) changed
+            if core.CUR.branch(self._ch):
+                return True
+            return any(d.changed for d in self.consulted)
 
     f = loader.load('supp.project', 'Project.get_module',
                     stubs={'sys': type('S', (), {'modules': {}, 'path': []}), 'os': fs_stub(list(Pj.SUFFIXES)),
@@ -768,6 +773,8 @@ def cache_invariant(run, twin=None):
 
     def body():
         a, b = Mod('a', ch_a), Mod('b', ch_b)
+        if core.CUR.branch(dep):
+            a.consulted.append(b)
 
         holder.update(a=a, s=real_project(Pj, _context_cache={}, _module_cache={'a': a, 'b': b}, dyn_modules=set(), get_path=lambda: []))
         try:
@@ -786,7 +793,8 @@ def cache_invariant(run, twin=None):
             prove('cached-module-served-only-if-what-it-consulted-is-unchanged', z3.Implies(dep, z3.Not(ch_b)),
                   clause='... and only if the files its analysis consulted are unchanged (dependency closure of Inv_cache)', path=p)
         else:
-            prove('changed-module-is-looked-up-afresh', ch_a, clause='a module is dropped only when its own file changed', path=p)
+            prove('changed-module-is-looked-up-afresh', z3.Or(ch_a, z3.And(dep, ch_b)),
+                  clause='a module is dropped only when its own file, or a file its analysis copied names from, changed', path=p)
     core.explore(body, on_path)
 
     def ground(path):
@@ -812,6 +820,48 @@ def cache_invariant(run, twin=None):
                   clause='SourceModule.changed <=> current mtime != mtime recorded at creation (also when it went backwards)', path=path)
             s1 = m.scope
             prove('analysis-memoised-per-module-object', m.scope is s1, path=path)
+            # contract of SourceModule.changed: ... or a module whose names the analysis copied (star import) changed
+            import supp.assistant as As2
+            import supp.evaluator as Ev2
+            def wr(name, text, t):
+                fnn = os.path.join(d, name)
+                open(fnn, 'w').write(text)
+                os.utime(fnn, (t, t))
+            wr('sc.py', 'cname1 = 1\n', 1000)
+            wr('sb.py', 'from sc import *\nbown = 1\n', 1000)
+            wr('sa.py', 'from sb import *\n', 1000)
+            wr('ia.py', 'import sc\nval = sc\n', 1000)
+            lp0 = Pj.Project([d])
+            def names_of(project, mod):
+                with project.check_changes():
+                    return As2.assist(project, 'import %s\n%s.' % (mod, mod), (2, len(mod) + 1), os.path.join(d, 'edited.py'))[1]
+            before = (names_of(lp0, 'sa'), names_of(lp0, 'sb'), names_of(lp0, 'ia'))
+            mb, ma = lp0.get_module('sb'), lp0.get_module('sa')
+            unchanged = (mb.changed, ma.changed)
+            wr('sc.py', 'cname2 = 2\n', 2000)
+            prove('changed-when-a-star-imported-module-changed', unchanged == (False, False) and mb.changed and ma.changed,
+                  clause='SourceModule.changed is also true when a module the analysis star-imports (directly or through another) was rewritten', path=path)
+            after = (names_of(lp0, 'sa'), names_of(lp0, 'sb'))
+            fresh2 = (names_of(Pj.Project([d]), 'sa'), names_of(Pj.Project([d]), 'sb'))
+            prove('star-imported-names-follow-the-edited-module', after == fresh2 and 'cname2' in after[0] and 'cname1' not in after[0] and 'cname1' in before[0],
+                  clause='after c.py is rewritten, modules that star-import it (also indirectly) offer what a fresh project offers [%r vs %r]' % (after, fresh2), path=path)
+            # an imported name refers to the module as it is in the current request
+            with lp0.check_changes():
+                via_attr = As2.assist(lp0, 'import ia\nia.val.', (2, 7), os.path.join(d, 'edited.py'))[1]
+            with Pj.Project([d]).check_changes():
+                pass
+            fresh_attr = names_of(Pj.Project([d]), 'sc')
+            prove('imported-name-refers-to-the-module-of-this-request', via_attr == fresh_attr and 'cname2' in via_attr,
+                  clause='ia.val (= the module sc, imported by an unchanged module) offers the names of the rewritten sc [%r vs %r]' % (via_attr, fresh_attr), path=path)
+            # a star-import cycle does not make `changed` recurse
+            wr('cy1.py', 'from cy2 import *\nx1 = 1\n', 1000)
+            wr('cy2.py', 'from cy1 import *\nx2 = 2\n', 1000)
+            names_of(lp0, 'cy1')
+            try:
+                chg = (lp0.get_module('cy1').changed, lp0.get_module('cy2').changed)
+            except RecursionError:
+                chg = 'RecursionError'
+            prove('changed-terminates-on-a-star-import-cycle', chg == (False, False), clause='[%r]' % (chg,), path=path)
             # the package path of a directory is part of the disk state too: a directory that becomes a package between two requests
             sub = os.path.join(d, 'pkg', 'sub')
             os.makedirs(sub)
